@@ -14,3 +14,10 @@ func sync.NewCond
   assumed
   modifies alloc
   ensures result != nil && fresh(result)
+# a context's Done channel is a function of the context
+fn doneChan(ctx ref) ref
+func context.Context.Done
+  assumed
+  recvnonnil
+  modifies nothing
+  ensures result == doneChan(self)
